@@ -117,7 +117,7 @@ def main():
         "notes": "exit 0 held / 1 VIOLATION / 2 INCONCLUSIVE (deciding monitor not reached, shard timeout, harness error). "
                  "Generators deliberately include second-use histories (re-initialised / restarted / re-saved objects, reused grid, "
                  "operation, function and data objects, caller-owned arrays), ties and exact boundaries, non-default options; "
-                 "89 independently seeded property-breaking changes (seeded/) and 53 own mutants are replayed by tools/selftest.py. "
+                 "110 independently seeded property-breaking changes (seeded/) and 53 own mutants are replayed by tools/selftest.py. "
                  "Known findings: /verif/known_findings.json.",
         "not_applicable": na,
     }
